@@ -117,6 +117,23 @@ func (f *Func) pruneFlagEdgesN(g *cfgx.Graph, depth int) {
 	boolConst := func(e ast.Expr) (bool, bool) {
 		tv, ok := info.Types[e]
 		if !ok || tv.Value == nil {
+			// a copy of the predeclared constants put in a parameter's place by the expansion
+			if id, isID := ast.Unparen(e).(*ast.Ident); isID {
+				switch info.Uses[id] {
+				case types.Universe.Lookup("true"):
+					return true, true
+				case types.Universe.Lookup("false"):
+					return false, true
+				}
+				if info.Uses[id] == nil && info.Defs[id] == nil {
+					switch id.Name {
+					case "true":
+						return true, true
+					case "false":
+						return false, true
+					}
+				}
+			}
 			return false, false
 		}
 		switch tv.Value.String() {
@@ -395,6 +412,60 @@ func (f *Func) pruneFlagEdgesN(g *cfgx.Graph, depth int) {
 		}
 	}
 	if len(flags) == 0 {
+		// no variable to follow, but a condition that is a constant (a parameter replaced by `true`) still has one side
+		pruned := false
+		for _, n := range g.Nodes {
+			if len(n.Succs) != 2 {
+				continue
+			}
+			var keep []*cfgx.Edge
+			for _, e := range n.Succs {
+				if e.Cond != nil && (e.Kind == cfgx.True || e.Kind == cfgx.False) {
+					if v, isConst := boolConst(e.Cond); isConst && v != (e.Kind == cfgx.True) {
+						var preds []*cfgx.Edge
+						for _, p := range e.To.Preds {
+							if p != e {
+								preds = append(preds, p)
+							}
+						}
+						e.To.Preds = preds
+						pruned = true
+						continue
+					}
+				}
+				keep = append(keep, e)
+			}
+			n.Succs = keep
+		}
+		if pruned {
+			live := map[*cfgx.Node]bool{g.Entry: true}
+			work := []*cfgx.Node{g.Entry}
+			for len(work) > 0 {
+				n := work[len(work)-1]
+				work = work[:len(work)-1]
+				for _, e := range n.Succs {
+					if !live[e.To] {
+						live[e.To] = true
+						work = append(work, e.To)
+					}
+				}
+			}
+			for _, n := range g.Nodes {
+				if live[n] || len(n.Succs) == 0 {
+					continue
+				}
+				for _, e := range n.Succs {
+					var preds []*cfgx.Edge
+					for _, p := range e.To.Preds {
+						if p != e {
+							preds = append(preds, p)
+						}
+					}
+					e.To.Preds = preds
+				}
+				n.Succs = nil
+			}
+		}
 		return
 	}
 	// state: 2 bits per flag (1 = may be true / non-nil, 2 = may be false / nil)
